@@ -64,7 +64,7 @@ Proof.
     eapply ext_trans; [eapply grows_ext; apply grows_new with (bb := 0) |].
     eapply grows_ext. apply grows_new with (bb := 0). }
   (* the final graph g7 and the facts that depend on whether the body falls through *)
-  assert (exists g7, s7 = mkB g7 n /\ grows g6 (match rb with Some e => e | None => 0 end) g7 /\
+  assert (exists g7, s' = mkB g7 n /\ grows g6 (match rb with Some e => e | None => 0 end) g7 /\
             opn g7 (S (S (length g))) /\ slen g7 (S (S (length g))) = 0 /\
             (forall G, ext g7 G -> forall e, rb = Some e -> forall st ret,
                steps oracle G (mkConfig e (slen g6 e) st ret) (mkConfig (length g) 0 st ret)))
